@@ -6,7 +6,7 @@ import numpy as np
 from hypothesis import strategies as st
 from hypothesis.stateful import RuleBasedStateMachine, initialize, rule
 
-from ..core import machine_law, given_law, plain_law, Violation
+from ..core import machine_law, given_law, plain_law, Violation, HarnessError
 from .. import gen
 
 RULE = ("histories over a pool of (kind, parameters, seed) descriptors, kind in {ft, ft_sh, von Karman infinite, Fried "
@@ -303,10 +303,10 @@ def seedset_body(ctx, case):
 
 # ------------------------------------------------------------------ order independence across pristine processes
 
-def isolated(ops):
+def isolated(ops, hashseed="0"):
     import json, os, subprocess, sys
     from ..core import VERIF_DIR, REPO_DIR, HarnessError
-    env = dict(os.environ, PYTHONPATH=VERIF_DIR, VERIF_REPO=REPO_DIR, PYTHONHASHSEED="0", NUMBA_NUM_THREADS="1", OMP_NUM_THREADS="1")
+    env = dict(os.environ, PYTHONPATH=VERIF_DIR, VERIF_REPO=REPO_DIR, PYTHONHASHSEED=str(hashseed), NUMBA_NUM_THREADS="1", OMP_NUM_THREADS="1")
     p = subprocess.run([sys.executable, "-m", "vt.isolated"], input=json.dumps(ops), capture_output=True, text=True, env=env, cwd=VERIF_DIR, timeout=600)
     if p.returncode != 0:
         if os.path.join(REPO_DIR, "aotools") in p.stderr:
@@ -353,9 +353,14 @@ def neighbour_body(ctx, case):
     perm = gen.np_rng(case["order"]).permutation(len(nb))
     nb = [nb[i] for i in perm]
     ctx.case(case, nontrivial=d["kind"] in ("vk", "fried"), classes=["kind_" + d["kind"]])
+    # each interpreter gets its own string-hash salt (PYTHONHASHSEED): "the same seed gives the same screen" holds across
+    # runs of a program, not only within one interpreter
+    hs = [1 + (case["order"] * 7919 + i * 104729) % 4000000 for i in range(2)]
     alone = isolated([{"d": d, "rows": k}])[0]
-    after = isolated([{"d": x, "rows": 1} for _, x in nb] + [{"d": d, "rows": k}])[-1]
-    sand = isolated([{"d": d, "rows": k}] + [{"d": x, "rows": 1} for _, x in nb] + [{"d": d, "rows": k}])
+    after = isolated([{"d": x, "rows": 1} for _, x in nb] + [{"d": d, "rows": k}], hashseed=hs[0])[-1]
+    sand = isolated([{"d": d, "rows": k}] + [{"d": x, "rows": 1} for _, x in nb] + [{"d": d, "rows": k}], hashseed=hs[1])
+    if after != alone and sand[0] != alone and isolated([{"d": d, "rows": k}], hashseed=hs[0])[0] != alone:
+        ctx.require(False, "seeded %s screen built alone in two fresh interpreters (string-hash salts 0 and %d) differs: the same seed does not reproduce the screen in another run of the program" % (d["kind"], hs[0]))
     for name, got in (("created after instances that differ in one parameter each", after), ("created first", sand[0]), ("re-created after instances that differ in one parameter each", sand[-1])):
         if got != alone:
             first = next(i for i, (x, y) in enumerate(zip(got, alone)) if x != y)
@@ -370,7 +375,9 @@ def neighbour_body(ctx, case):
 
 def unseeded_cases(tier):
     n = 1500 if tier == "quick" else 6000
-    return [{"kind": k, "count": n} for k in ("ft", "ft_sh", "vk", "fried")]
+    # ... and the same with NumPy's legacy global generator put back to one and the same state before every call and every
+    # added row (a script that re-seeds it per frame to make its detector noise repeatable)
+    return [{"kind": k, "count": n} for k in ("ft", "ft_sh", "vk", "fried")] + [{"kind": k, "count": n // 5, "reseed": True} for k in ("ft", "ft_sh", "vk", "fried")]
 
 
 def unseeded_body(ctx, case):
@@ -378,29 +385,71 @@ def unseeded_body(ctx, case):
     space of 1e5 values would give >= 1 collision with probability 1 - exp(-count^2 / 2e5) > 0.9999 for 1500)."""
     import hashlib
     ps_, ips, _, _ = T()
-    ctx.case(case, nontrivial=True, classes=["kind_" + case["kind"]])
+    ctx.case(case, nontrivial=True, classes=["kind_" + case["kind"]] + (["global_state_reset_each_time"] if case.get("reseed") else []))
     seen = {}
     st0 = np.random.get_state()
     try:
         with warnings.catch_warnings():
             warnings.simplefilter("ignore")
+            reseed = case.get("reseed", False)
+            rows_seen = {}
             for i in range(case["count"]):
+                if reseed:
+                    np.random.seed(20240917)
+                    np.random.normal(size=3)
                 if case["kind"] == "ft":
                     a = ps_.ft_phase_screen(0.16, 2, 0.1, 25.0, 0.01)
                 elif case["kind"] == "ft_sh":
                     a = ps_.ft_sh_phase_screen(0.16, 2, 0.1, 25.0, 0.01)
-                elif case["kind"] == "vk":
-                    a = ips.PhaseScreenVonKarman(2, 0.1, 0.16, 25.0, n_columns=1).scrn
                 else:
-                    a = ips.PhaseScreenKolmogorov(2, 0.1, 0.16, 25.0, stencil_length_factor=1).scrn
+                    o = ips.PhaseScreenVonKarman(2, 0.1, 0.16, 25.0, n_columns=1) if case["kind"] == "vk" else ips.PhaseScreenKolmogorov(2, 0.1, 0.16, 25.0, stencil_length_factor=1)
+                    a = o.scrn
+                    if reseed:
+                        # the rows added to ONE screen, the global state being reset before each: the innovations must differ
+                        a = np.array(a, copy=True)
+                        prev = np.array(o.scrn, copy=True)
+                        for k in range(3):
+                            np.random.seed(20240917)
+                            row = np.array(o.add_row()[0], copy=True)
+                            # new row minus what the old screen alone would give is B b: recover it by stepping a copy with the same content and comparing is
+                            # not possible without the stream, so compare rows across screens instead (hash below) and successive increments here
+                            hk = hashlib.blake2b(row.tobytes(), digest_size=12).digest()
+                            ctx.require(hk not in rows_seen, "unseeded %s screens: row %d of screen %d is bit-identical to an earlier new row although NumPy's global state is all they share" % (case["kind"], k, i))
+                            rows_seen[hk] = (i, k)
                 h = hashlib.blake2b(np.ascontiguousarray(a).tobytes(), digest_size=12).digest()
-                ctx.require(h not in seen, "unseeded %s screens number %d and %d are bit-identical" % (case["kind"], seen.get(h, -1), i))
+                ctx.require(h not in seen, "unseeded %s screens number %d and %d are bit-identical%s" % (case["kind"], seen.get(h, -1), i, " (NumPy's global generator was put in the same state before each)" if reseed else ""))
                 seen[h] = i
     finally:
         np.random.set_state(st0)
 
 
+def forked_cases(tier):
+    return [{"children": c, "warm": w, "per_child": 3} for c in ((4, 8) if tier == "quick" else (4, 8, 16)) for w in (0, 2)]
+
+
+def forked_body(ctx, case):
+    """'Unseeded calls differ from each other' also when the calls are made by worker processes forked from one parent
+    after the library was imported (the usual way to generate many screens in parallel): a generator created at import
+    or at the first call and inherited through fork() would give every worker the same screens.  (vt/forked.py)"""
+    import json, os, subprocess, sys
+    from ..core import VERIF_DIR, REPO_DIR
+    ctx.case(case, nontrivial=True, classes=["children_%d" % case["children"], "warm_%d" % case["warm"]])
+    env = dict(os.environ, PYTHONPATH=VERIF_DIR, VERIF_REPO=REPO_DIR, NUMBA_THREADING_LAYER="workqueue", NUMBA_NUM_THREADS="1", OMP_NUM_THREADS="1")
+    p = subprocess.run([sys.executable, "-m", "vt.forked", str(case["children"]), str(case["warm"]), str(case["per_child"])], capture_output=True, text=True, env=env, cwd=VERIF_DIR, timeout=900)
+    if p.returncode != 0:
+        if os.path.join(REPO_DIR, "aotools") in p.stderr:
+            raise Violation("unseeded screens in forked workers failed inside the library: %s" % p.stderr.strip().splitlines()[-1][:200])
+        raise HarnessError("forked runner failed: %s" % p.stderr[-400:])
+    seen = {}
+    for who, kind, i, h in json.loads(p.stdout):
+        prev = seen.get(h, ("?", "?", -1))
+        ctx.require(h not in seen, "unseeded %s screen number %d of %s is bit-identical to number %d of %s (processes forked from one parent after %d unseeded calls there)"
+                    % (kind, i, who, prev[2], prev[0], case["warm"]))
+        seen[h] = (who, kind, i)
+
+
 LAWS = [
+    plain_law("forked_workers_distinct", forked_cases, forked_body, shards={"quick": 2, "thorough": 3}),
     plain_law("unseeded_all_distinct", unseeded_cases, unseeded_body, shards={"quick": 4, "thorough": 4}),
     given_law("order_independence", neighbour_cases(), neighbour_body, {"quick": 3, "thorough": 20}, shards={"quick": 6, "thorough": 16}),
     given_law("distinct_seeds", seedset_cases(), seedset_body, {"quick": 25, "thorough": 100}, shards={"quick": 2, "thorough": 8}),
